@@ -317,6 +317,13 @@ def run_check(plugin, prop, tier, seed, skip_lean=False) -> int:
 
 
 def replay(plugin, prop, path) -> int:
+    # bring the generated part of the model and the driver up to date with /repo's current tree first
+    with Lock():
+        import extract
+        extract.run(REPO, os.path.join(LEAN, 'PedVerif', 'Gen'))
+        rc, out = sh(['lake', 'build', 'peddriver'], cwd=LEAN)
+        if rc != 0:
+            raise RuntimeError('the model driver does not build:\n' + out[-2000:])
     r = json.load(open(path))
     if r.get('kind') == 'no-failing-input-found':
         print('this replay names a broken proof obligation / correspondence, not a failing input:')
